@@ -445,7 +445,7 @@ impl Property for C09 {
     }
 
     fn cases(tier: Tier) -> u64 {
-        tier.pick(80_000, 1_600_000)
+        tier.pick(80_000, 5_000_000)
     }
 
     fn exhaustive_spaces(_tier: Tier) -> Vec<String> {
